@@ -50,6 +50,11 @@ CLAIMED = {
   note="Trusted as C03, plus: ssh replaced by a stand-in, process/pipe plumbing not modelled; local tree must have no entry under `.copia/` and no file/directory clash with the hub (explicit hypotheses).",
   technique="Coq proof (induction over the local file list through the CAS specification) + checked correspondence incl. forced stale listings",
   ref="5.20"),
+ "C20": dict(
+  text="Coq theorems over ALL values and ALL byte strings: frame headers with magic COPA, version 1, length <= 16 MiB, any type and flags survive encode/decode and have the stated byte shape; every 12-byte input with a wrong magic, wrong version, type byte outside 1..7 or oversize length is an error (acceptance iff validity, by cases on the fields); bincode round trips decode(encode v ++ rest) = (v, rest) for signatures, deltas and all seven message kinds with lists of any length; read_message(write_message m ++ rest) = (m, rest), the written length field is the payload length, write refuses exactly the payloads above the bound; for every input the frame buffer reserved by read_message is <= MAX_PAYLOAD_SIZE, the decoders' fuel (input length) always suffices, a Vec decoder pre-reserves <= 1 MiB; the CLI readers end in an error exit or construct the engine with a block size that satisfies its assertion. Tie: regenerated constants (magic, version, MAX_PAYLOAD_SIZE, type codes, CLI and engine block-size bounds) and a differential run of FrameHeader/Message/Codec/bincode (both profiles) and of `copia delta|patch` against the extracted model on random values, all truncations and single-field corruptions, with implementation-side oracles (no panic, allocation watermark, round trip, no signal/timeout).",
+  note="Trusted as C17, plus: bincode 1.3.3/serde 1.0.228 behaviour is the hand-written Model/Bincode.v, validated by the differential run, not derived from their source; UTF-8 validity is a quantified predicate (supplied per case by the harness when executing); allocation failure is not modelled; the delta/patch engine behind a Proceed outcome is C01/C05's subject.",
+  technique="Coq proof (structural induction on values / case analysis on header fields; totality by construction with fuel-sufficiency lemmas) + checked correspondence incl. real binary",
+  ref="5.5"),
 }
 
 NA_REASON = "check not built yet in this session; see DESIGN.md section 5 for the planned model and theorems"
